@@ -362,6 +362,111 @@ type RetryFact struct {
 	Table   []string `json:"table"`
 	Guard   string   `json:"guard"`
 	Indexed []string `json:"indexed"`
+	// every way out of the back-off goroutine's loop, in source order: "for <cond>" (the loop header; empty cond =
+	// `for {`), then one entry per return / break / goto / panic inside the goroutine's function literal:
+	// "<kind> if <enclosing conditions joined by &&> after <statement in front of it in the same block>"
+	Exits []string `json:"exits"`
+}
+
+// retryExits lists the ways out of the goroutine started by OnRead (the first `go func() {…}()` of the function):
+// the model (Netpoll.Server.Retry.iter) lets the goroutine end only after accept returned (nil, nil) and the
+// listener was registered again; any other return / break / goto / panic, or a loop condition, is a path on which
+// the listener stays detached with nobody retrying.
+func retryExits(p *packages.Package, body *ast.BlockStmt) []string {
+	var lit *ast.FuncLit
+	ast.Inspect(body, func(n ast.Node) bool {
+		if g, ok := n.(*ast.GoStmt); ok && lit == nil {
+			if fl, ok := g.Call.Fun.(*ast.FuncLit); ok {
+				lit = fl
+			}
+		}
+		return lit == nil
+	})
+	if lit == nil {
+		return nil
+	}
+	var out []string
+	caseText := func(l []ast.Expr) string {
+		if len(l) == 0 {
+			return "default"
+		}
+		xs := make([]string, len(l))
+		for i, e := range l {
+			xs[i] = exprStr(p.Fset, e)
+		}
+		return strings.Join(xs, ",")
+	}
+	var walk func(list []ast.Stmt, conds []string, loops int)
+	var stmt func(s ast.Stmt, prev ast.Stmt, conds []string, loops int)
+	add := func(kind string, prev ast.Stmt, conds []string) {
+		c := strings.Join(conds, " && ")
+		before := "-"
+		if prev != nil {
+			before = exprStr(p.Fset, prev)
+		}
+		out = append(out, kind+" if "+c+" after "+before)
+	}
+	stmt = func(s ast.Stmt, prev ast.Stmt, conds []string, loops int) {
+		switch x := s.(type) {
+		case *ast.ReturnStmt:
+			add("return", prev, conds)
+		case *ast.BranchStmt:
+			// a break that leaves the retry loop itself (unlabelled directly inside it, or labelled), or a goto
+			if x.Tok == token.GOTO || (x.Tok == token.BREAK && (loops <= 1 || x.Label != nil)) {
+				add(x.Tok.String(), prev, conds)
+			}
+		case *ast.ExprStmt:
+			if c, ok := x.X.(*ast.CallExpr); ok {
+				if id, ok := c.Fun.(*ast.Ident); ok && id.Name == "panic" {
+					add("panic", prev, conds)
+				}
+			}
+		case *ast.BlockStmt:
+			walk(x.List, conds, loops)
+		case *ast.LabeledStmt:
+			stmt(x.Stmt, prev, conds, loops)
+		case *ast.IfStmt:
+			c := exprStr(p.Fset, x.Cond)
+			walk(x.Body.List, append(append([]string(nil), conds...), c), loops)
+			if x.Else != nil {
+				stmt(x.Else, nil, append(append([]string(nil), conds...), "!("+c+")"), loops)
+			}
+		case *ast.ForStmt:
+			c := ""
+			if x.Cond != nil {
+				c = exprStr(p.Fset, x.Cond)
+			}
+			out = append(out, strings.TrimSpace("for "+c))
+			walk(x.Body.List, conds, loops+1)
+		case *ast.RangeStmt:
+			out = append(out, "for range "+exprStr(p.Fset, x.X))
+			walk(x.Body.List, conds, loops+1)
+		case *ast.SwitchStmt:
+			for _, cc := range x.Body.List {
+				cl := cc.(*ast.CaseClause)
+				walk(cl.Body, append(append([]string(nil), conds...), "case "+caseText(cl.List)), loops+1)
+			}
+		case *ast.TypeSwitchStmt:
+			for _, cc := range x.Body.List {
+				cl := cc.(*ast.CaseClause)
+				walk(cl.Body, append(append([]string(nil), conds...), "case "+caseText(cl.List)), loops+1)
+			}
+		case *ast.SelectStmt:
+			for _, cc := range x.Body.List {
+				cl := cc.(*ast.CommClause)
+				walk(cl.Body, append(append([]string(nil), conds...), "select-case"), loops+1)
+			}
+		}
+	}
+	walk = func(list []ast.Stmt, conds []string, loops int) {
+		var prev ast.Stmt
+		for _, s := range list {
+			stmt(s, prev, conds, loops)
+			prev = s
+		}
+	}
+	walk(lit.Body.List, nil, 0)
+	return out
 }
 
 func retryFacts(p *packages.Package) RetryFact {
@@ -372,6 +477,7 @@ func retryFacts(p *packages.Package) RetryFact {
 			if !ok || fd.Body == nil || recvName(fd) != "server" || fd.Name.Name != "OnRead" {
 				continue
 			}
+			rf.Exits = retryExits(p, fd.Body)
 			var table types.Object
 			ast.Inspect(fd.Body, func(n ast.Node) bool {
 				switch x := n.(type) {
@@ -444,7 +550,13 @@ func writeServerLean(out string, steps map[string][]string, rf RetryFact) error 
 	for i, x := range rf.Indexed {
 		qs[i] = leanStr(x)
 	}
-	fmt.Fprintf(&b, "def server_OnRead_retryIndexed : List String := [%s]\n\n", strings.Join(qs, ", "))
+	fmt.Fprintf(&b, "def server_OnRead_retryIndexed : List String := [%s]\n", strings.Join(qs, ", "))
+	es := make([]string, len(rf.Exits))
+	for i, x := range rf.Exits {
+		es[i] = leanStr(x)
+	}
+	b.WriteString("/-- every way out of the back-off goroutine: loop header, then return / break / goto / panic with the enclosing conditions -/\n")
+	fmt.Fprintf(&b, "def server_OnRead_retryExits : List String := [%s]\n\n", strings.Join(es, ",\n  "))
 	b.WriteString("end Netpoll.Gen.Server\n")
 	return os.WriteFile(filepath.Join(out, "Server.lean"), []byte(b.String()), 0o644)
 }
